@@ -77,7 +77,7 @@ def run(ctx, replay=None):
     #    process replay them (concurrently) in the background while TLC does the exhaustive runs
     import threading
     cfgfile, tcfg = CFGS['e']
-    num, depth = (24, 30) if quick else (120, 36)
+    num, depth = (60, 30) if quick else (160, 36)
     r, ts = tlc.simulate_traces(SPEC, MODULE, cfgfile, num, depth, ctx.seed, drop_vars=DROP, timeout=900)
     ctx.add_tlc('TxPool/sim-e', r, exhaustive=False)
     if r.violation:
